@@ -9,8 +9,11 @@ on a worker its body may itself call `stop()`, submit nested work, or delete the
 One small step = one piece of straight-line code of one thread; its `Outcome` says whether the piece ended with a
 synchronising operation of the harness (`op`: end of a critical section on `_mx`, a join), blocked the thread, finished
 it, or goes on (`cont`).  `threadStep` (below) runs small steps up to the next scheduling point, which is exactly one
-step of a thread under the baton scheduler of `harness/h_pool.cpp`.  All critical sections on `_mx` are atomic steps
-(mutual exclusion; nothing inside them is a scheduling point).
+step of a thread under the baton scheduler of `harness/h_pool.cpp`.  Critical sections on `_mx` are atomic steps
+(mutual exclusion) with one exception: a worker whose wait predicate was false keeps the mutex across a step boundary
+(`Pc.wCvEnter`: inside `_cond.wait`, not yet registered); `State.mx` is the owner, a thread that wants the mutex then
+blocks in `lock()`.  An optional second pool instance B (`Cfg.hasB`, one worker, never a submission) can be stopped or
+destroyed by clients and by jobs of A.
 
 The model follows the code as it is, including the two repairs (`Cfg.raOwns`, `Cfg.dtorOutside`); with the flags off
 it is the pinned code (witness theorems in `Props/C11.lean`).
